@@ -232,13 +232,16 @@ func (config Config) NewSession(nic string) (session *Session, err error) {
 // Close stop all session goroutines and close notification channel and the underlaying raw connection.
 // The session is no longer valid after calling Close().
 func (h *Session) Close() {
+	h.mutex.Lock()
 	if h.closed {
+		h.mutex.Unlock()
 		return
 	}
 	h.closed = true
 	close(h.closeChan)
 	verifYield("Close:between")
-	close(h.C)
+	close(h.C) // senders check closed under the session lock
+	h.mutex.Unlock()
 	h.Conn.Close()
 	time.Sleep(time.Second) // give time for goroutines to end
 }
@@ -270,7 +273,10 @@ func (h *Session) ReadFrom(b []byte) (int, net.Addr, error) {
 			}
 			continue
 		}
-		if h.closed {
+		h.mutex.RLock()
+		closed := h.closed
+		h.mutex.RUnlock()
+		if closed {
 			return n, addr, ErrHandlerClosed
 		}
 		return n, addr, err
